@@ -504,8 +504,8 @@ class _FakeProc(object):
         if not self._done:
             self._done = True
             self.returncode = self.owner.rc(self.pid)
-            if self.returncode == 0:
-                self.owner.produce(self.command)
+            if self.returncode == 0 and not self.owner.produce(self.command):
+                self.returncode = 1       # like the real converter: it fails when it cannot write its output
         return self.returncode
 
     def poll(self):
@@ -549,9 +549,12 @@ class _FakeSubprocess(object):
             # ["pdftoppm", pdf_name, data, "-png", "-singlefile"]
             out = command[2] + "." + command[3].lstrip("-")
             content = "CONV:" + command[3].lstrip("-") + ":" + _canon_str(command[1], self.root)
+        if not os.path.isdir(os.path.dirname(out) or "."):
+            return False              # no such directory: the converter fails, it does not raise into lena
         with open(out, "w") as f:
             f.write(content)
         self.clock.stub_writes.append(out)
+        return True
 
     def Popen(self, command, **kw):
         p = _FakeProc(self, command, self.n)
@@ -697,7 +700,7 @@ _BIN_CLASSES = {"num": "int", "pair": "int", "hist": "histogram", "vec": "tuple"
 _PDFTOPPM_STUB = """#!/bin/sh
 # stands for pdftoppm: pdftoppm <pdf> <base> -<format> -singlefile
 fmt="${3#-}"
-printf 'picture of %s' "$(basename "$1")" > "$2.$fmt"
+{ printf 'picture of %s' "$(basename "$1")" > "$2.$fmt"; } 2>/dev/null || exit 1
 """
 
 
